@@ -470,3 +470,28 @@ _borrow("C17", "strict smallest-cell filter in the 2D basis search (D17 regressi
 _borrow("C03", "substituted atoms become members", "C02", "R02.5")
 _borrow("C01", "twin: cleaning returns rebuilt Cluster objects with the full clustering context", "C02", "silent")
 _borrow("C13", "cleaning returns rebuilt Cluster objects that forget the bond threshold", "C02", "R02.7")
+
+# ------------------------------------------------------------------------------------------ class-level shared state (round 8, C17-15)
+_LUC_DOC = "    only be a sequence of three integers, and the values should be LinkedUnits.\n    \"\"\"\n"
+for _pid, _rid in (("C17", "R17.8"), ("C18", "R18.10"), ("C03", "R03.11")):
+    V(_pid, "search graph moved to a class attribute shared by every region", _rid,
+      (LUN, _LUC_DOC, _LUC_DOC + "\n    _search_graph = nx.MultiDiGraph()\n"), (LUN, "        self._search_graph = nx.MultiDiGraph()\n", ""))
+    V(_pid, "twin: class-level default that every instance rebinds in __init__", "silent",
+      (LUN, _LUC_DOC, _LUC_DOC + "\n    _search_graph = None\n    _index_cell_map = {}\n"))
+
+# ------------------------------------------------------------------------------------------ reduction into [0, 1) (round 8, C08-15)
+V("C08", "wrap helper computes the remainder and drops it", "R08.9", (GEO, "    scaled_pos %= 1\n\n    abs_zero", "    np.remainder(scaled_pos, 1)\n\n    abs_zero"))
+for _pid in ("C08", "C05", "C07"):
+    V(_pid, "twin: wrap helper assigns np.mod back", "silent", (GEO, "    scaled_pos %= 1\n\n    abs_zero", "    scaled_pos = np.mod(scaled_pos, 1)\n\n    abs_zero"))
+for _pid in ("C05", "C07"):
+    V(_pid, "twin: unreduced coordinates are the same atoms modulo the lattice (C08's clause, not this property's)", "silent",
+      (GEO, "    scaled_pos %= 1\n\n    abs_zero", "    np.remainder(scaled_pos, 1)\n\n    abs_zero"))
+V("C08", "wrap helper uses the sign-keeping fmod", "R08.9", (GEO, "    scaled_pos %= 1\n\n    abs_zero", "    scaled_pos = np.fmod(scaled_pos, 1)\n\n    abs_zero"))
+# starred unpack of table objects (round 8, C14-15)
+V("C14", "union of the variable sets written into the table entry of the first letter", "C14.readonly",
+  (SYM, "        for wyckoff_letter in wyckoff_letters:\n            variables = wyckoff_info[wyckoff_letter][\"variables\"]\n            if len(variables) != 0:\n                return True\n        return False\n",
+        "        variables, *others = [wyckoff_info[x][\"variables\"] for x in wyckoff_letters]\n        variables.update(*others)\n        return len(variables) != 0\n"))
+V("C14", "twin: union of the variable sets in a fresh set", "silent",
+  (SYM, "        for wyckoff_letter in wyckoff_letters:\n            variables = wyckoff_info[wyckoff_letter][\"variables\"]\n            if len(variables) != 0:\n                return True\n        return False\n",
+        "        variables = set().union(*[wyckoff_info[x][\"variables\"] for x in wyckoff_letters])\n        return len(variables) != 0\n"))
+V("C01", "falsy seed replaced by OS entropy", "R01.2", (SBC, "np.random.default_rng(seed)", "np.random.default_rng(seed or None)"))
